@@ -254,8 +254,52 @@ def r2_who(ctx):
     return r
 
 
+def r3_always(ctx):
+    """MIR path / dominance clauses (py/mirsum.py): the registry exists before anything can register, every unit that is read
+    registers itself whatever its content, and the script is emitted whatever was registered"""
+    import mirsum
+    from mirlib import callee_name as _cn
+    r = Rule("C17.R3", "registration and embedding are unconditional: registry before the children, every used unit, always a script",
+             "`lists, for each translation unit used by the request, exactly that unit's strings`: a unit without strings still has an entry (`values: []`), "
+             "a unit read while the children are built must find the registry, and a request that used nothing still gets the (empty) script the client reads", floor=3)
+    prog = ctx.mir("main")
+    b = prog.body("leptos_i18n::fetch_translations::TranslationUnit::register")
+    if b is None:
+        r.missing("TranslationUnit::register")
+    else:
+        ps = mirsum.paths(prog, b, depth=0)
+        if ps is not None and len(ps) == 1 and [mirsum.fmt(x) for x in ps[0][1]] == ["RegisterCtx::register()"]:
+            r.inst("TranslationUnit::register", "one path: RegisterCtx::register::<Self>(), whatever the unit holds")
+        else:
+            r.viol("R3:TranslationUnit::register#unconditional", "a used unit is not always registered: %s" % ([[mirsum.fmt(x)[:60] for x in p_[1]] for p_ in ps] if ps else "paths cannot be enumerated"), file=b.file, line=b.line)
+    b = prog.body("leptos_i18n::context::embed_translations_fn")
+    if b is None:
+        r.missing("embed_translations_fn")
+    else:
+        ps = mirsum.paths(prog, b, depth=0)
+        ok = ps is not None and len(ps) == 1 and any(mirsum.fmt(x) == "RegisterCtx::to_array(p1)" for x in ps[0][1]) and \
+            any(mirsum.fmt(x).startswith("InnerHtmlAttribute::inner_html(html::script(), IntoAttributeValue::into_attribute_value(RegisterCtx::to_array(p1)))") for x in ps[0][1])
+        if ok:
+            r.inst("embed_translations_fn", "one path: <script inner_html = reg_ctx.to_array()>, whatever was registered")
+        else:
+            r.viol("R3:embed_translations_fn#unconditional", "the script is not emitted on every path with the registry's array as its content (%s path(s))" % (len(ps) if ps is not None else "?"), file=b.file, line=b.line)
+    b = prog.body("leptos_i18n::context::provide_i18n_context_component_inner")
+    if b is None:
+        r.missing("provide_i18n_context_component_inner")
+    else:
+        prov = M.call_blocks(b, r"register::RegisterCtx::<L>::provide_context$")
+        from rules.c18 import _direct_param
+        kids = [i for i, t in b.calls() if (_cn(t) or "").endswith("FnOnce::call_once") and t["args"] and _direct_param(b, t["args"][0]) == "children"]
+        if len(prov) == 1 and len(kids) == 1 and b.dominates(prov[0], kids[0]):
+            r.inst("provide_i18n_context_component_inner", "RegisterCtx::provide_context() dominates the call of `children`: units read while the children are built find the registry")
+        else:
+            r.viol("R3:provide_i18n_context_component_inner#registry-first", "the registry is not provided before the children are built (provide_context sites: %d, children() calls: %d): "
+                   "translations read eagerly by a child component are not embedded" % (len(prov), len(kids)), file=b.file, line=b.line)
+    return r
+
+
 def run(ctx):
-    return [r1_escape(ctx), r2_who(ctx)]
+    return [r1_escape(ctx), r2_who(ctx), r3_always(ctx)]
 
 
 MANIFEST_ENTRY = {
